@@ -791,6 +791,8 @@ def _is_arr(x):
 
 
 def array(x, dtype=None, copy=True, ndmin=0):
+    if hasattr(x, "__symx_array__"):
+        x = x.__symx_array__()
     if isinstance(x, SymArr):
         if dtype is not None and _dtype_of(dtype) != x.dtype:
             return x.astype(dtype)
